@@ -1,7 +1,7 @@
 (* C03 - basis functions and knot-span search satisfy their defining identities.
    This file only states the property theorems; proofs live under Proofs/ and Transfer/. *)
 From Coq Require Import List QArith Reals Qreals Lia Arith Bool.
-From NV Require Import Scalar.Ops Model.Common Model.Basis Model.Knots Proofs.Boehm Proofs.BasisR Proofs.KnotsR Transfer.BasisT.
+From NV Require Import Scalar.Ops Model.Common Model.Basis Model.Knots Proofs.Boehm Proofs.BasisR Proofs.KnotsR Proofs.EvalR Proofs.BinSearchR Proofs.DersSum5 Proofs.DersSum6 Transfer.BasisT.
 Import ListNotations.
 
 (* [G] all degrees, all sorted knot vectors with any multiplicities, all parameters in a non-empty span *)
@@ -55,6 +55,47 @@ Theorem C03_normalize_affine_monotone : forall f (U : list R),
   ((f < last (f :: U) f)%R -> forall a b, (a <= b)%R -> ((a - f) / (last (f :: U) f - f) <= (b - f) / (last (f :: U) f - f))%R).
 Proof. intros f U. split; [apply normalize_affine|intros H a b; apply normalize_monotone; exact H]. Qed.
 Print Assumptions C03_normalize_affine_monotone.
+
+(* [G] binary search = linear search: for every sorted knot vector, every degree and every parameter of [U_p, U_num) that is
+   not within the implementation's end tolerance of U_num, the binary search terminates (within the model's fuel) and returns
+   the span of the linear search, i.e. the unique non-empty half-open interval containing u *)
+Theorem C03_binsearch_eq_linear : forall (U : list R) (u tol : R) (p num : nat),
+  sortedR U -> (p < num)%nat -> (num < length U)%nat -> (knR U p <= u < knR U num)%R -> (tol < Rabs (knR U num - u))%R ->
+  find_span_binsearch Rops tol p U num u = Some (find_span_linear Rops p U num u).
+Proof. intros U u tol p num Hs. exact (binsearch_eq_linear U u Hs tol p num). Qed.
+Print Assumptions C03_binsearch_eq_linear.
+
+Theorem C03_span_unique : forall (U : list R) (u : R) k k', sortedR U -> (k + 1 < length U)%nat -> (k' + 1 < length U)%nat ->
+  (knR U k <= u < knR U (k + 1))%R -> (knR U k' <= u < knR U (k' + 1))%R -> k = k'.
+Proof. intros U u k k' Hs. exact (span_unique U u Hs k k'). Qed.
+Print Assumptions C03_span_unique.
+
+(* [B: degrees 1..6, every knot vector / multiplicity pattern / parameter] every derivative row k = 1..p of A2.3 sums to zero
+   and row 0 sums to one.  Proved per degree on the symbolic knot window by field and lifted to arbitrary knot vectors by the
+   window-locality theorem (Proofs/DersLocal.v).  Degree 7 of the property's range 1..7 is tied by the correspondence only. *)
+Theorem C03_ders_rows_sum_to_zero_deg_le_6 : forall (U : list R) (span : nat) (u : R),
+  sortedR U -> (knR U span <= u < knR U (span + 1))%R ->
+  ((1 <= span)%nat -> (span + 1 < length U)%nat -> let D := basis_function_ders Rops 1 U span u 1 in sumT Rops (nth 1 D []) = 0%R) /\
+  ((2 <= span)%nat -> (span + 2 < length U)%nat -> let D := basis_function_ders Rops 2 U span u 2 in
+      sumT Rops (nth 1 D []) = 0%R /\ sumT Rops (nth 2 D []) = 0%R) /\
+  ((3 <= span)%nat -> (span + 3 < length U)%nat -> let D := basis_function_ders Rops 3 U span u 3 in
+      sumT Rops (nth 1 D []) = 0%R /\ sumT Rops (nth 2 D []) = 0%R /\ sumT Rops (nth 3 D []) = 0%R) /\
+  ((4 <= span)%nat -> (span + 4 < length U)%nat -> let D := basis_function_ders Rops 4 U span u 4 in
+      sumT Rops (nth 1 D []) = 0%R /\ sumT Rops (nth 2 D []) = 0%R /\ sumT Rops (nth 3 D []) = 0%R /\ sumT Rops (nth 4 D []) = 0%R) /\
+  ((5 <= span)%nat -> (span + 5 < length U)%nat -> let D := basis_function_ders Rops 5 U span u 5 in
+      sumT Rops (nth 1 D []) = 0%R /\ sumT Rops (nth 2 D []) = 0%R /\ sumT Rops (nth 3 D []) = 0%R /\ sumT Rops (nth 4 D []) = 0%R /\ sumT Rops (nth 5 D []) = 0%R) /\
+  ((6 <= span)%nat -> (span + 6 < length U)%nat -> let D := basis_function_ders Rops 6 U span u 6 in
+      sumT Rops (nth 1 D []) = 0%R /\ sumT Rops (nth 2 D []) = 0%R /\ sumT Rops (nth 3 D []) = 0%R /\ sumT Rops (nth 4 D []) = 0%R /\ sumT Rops (nth 5 D []) = 0%R /\ sumT Rops (nth 6 D []) = 0%R).
+Proof.
+  intros U span u Hs Hu.
+  split; [intros Hp HL; pose proof (ders_sums_p1 U span u Hs Hu Hp HL) as H; cbn zeta in *; tauto|].
+  split; [intros Hp HL; pose proof (ders_sums_p2 U span u Hs Hu Hp HL) as H; cbn zeta in *; tauto|].
+  split; [intros Hp HL; pose proof (ders_sums_p3 U span u Hs Hu Hp HL) as H; cbn zeta in *; tauto|].
+  split; [intros Hp HL; pose proof (ders_sums_p4 U span u Hs Hu Hp HL) as H; cbn zeta in *; tauto|].
+  split; [intros Hp HL; pose proof (ders_sums_p5 U span u Hs Hu Hp HL) as H; cbn zeta in *; tauto|].
+  intros Hp HL; pose proof (ders_sums_p6 U span u Hs Hu Hp HL) as H; cbn zeta in *; tauto.
+Qed.
+Print Assumptions C03_ders_rows_sum_to_zero_deg_le_6.
 
 (* non-vacuity: a concrete cubic knot vector with a double interior knot meets the hypotheses *)
 Example C03_hypotheses_satisfiable :
